@@ -63,7 +63,7 @@ def default_timeout(run):
     b = run.get("budget", 0)
     if run.get("mode") == "limited" and b < UNLIMITED:
         return 10.0 + min(b, 10 ** 8) * 2e-6
-    return run.get("watchdog", 10.0)
+    return run.get("watchdog", 8.0)
 
 
 def execute(hv, cases, runs_for, screen=None, nworkers=None, env=None):
@@ -80,6 +80,24 @@ def execute(hv, cases, runs_for, screen=None, nworkers=None, env=None):
     for c, rq, rr in zip(cases, reqs, res):
         results, done = rr
         out.append((c, rq["runs"], results, done))
+    # A watchdog expiry is only believed after the same run, alone on a quiet
+    # pool, again fails to come back within three times the allowance.
+    redo = [(k, i) for k, (c, runs, results, done) in enumerate(out)
+            for i, r in enumerate(results) if r is not None and "hung" in r and not runs[i].get("expectHang")]
+    confirmed = set()
+    for k, i in redo[:60]:
+        c, runs, results, done = out[k]
+        if k in confirmed:
+            continue
+        rq = {"op": "run", "id": c["id"], "prog": c["prog"], "w": c["w"], "input": c["input"], "runs": [runs[i]]}
+        rr = pool.run_cases(hv, [rq], nworkers=1, run_timeout=lambda run: 3 * default_timeout(run), env=env)
+        r2 = rr[0][0][0]
+        if "hung" not in r2:
+            log("[watchdog] %s run %d finished on retry" % (c["id"], i))
+            r2["run"] = i
+        else:
+            confirmed.add(k)      # the other hung runs of this case are believed as observed
+        results[i] = r2
     return out
 
 
@@ -89,7 +107,8 @@ def claim_of(run, result):
     if "died" in result:
         return "crashed", 0, "died:" + result["died"]
     if "hung" in result:
-        return "running", 0, "hung"
+        # still running when the watchdog fired: only a canonically divergent run explains that
+        return "running", 1, "hung"
     ret = result["ret"]
     if ret in ("ok", "true"):
         return ("stopped" if result.get("fault") else "complete"), 0, ret
